@@ -2,6 +2,7 @@
    M <hex>      validateMediaType
    T <hex>      the created validation of pack.go (validateRFC3339) accepts
    L <hex>      time.Parse(time.RFC3339, _) alone succeeds (the lenient recogniser)
+   J <hex>      json.Marshal of a string (escaping)      B <hex>   base64.StdEncoding of bytes
    U <hex>      a string after json.Marshal / Unmarshal (invalid UTF-8 coerced)
    K <fn> <exists> <key 0=full 1=digest 2=namespace 3=file> <failat|-> <at> <subject> <layers> <ann> <config> <config_ann> <store>
    Descriptors  D:<mt>:<dg>:<size>:<ann>:<at>:<extra>   (hex fields, "-" = empty)
@@ -30,16 +31,41 @@ let show_ann l =
     let ps = List.sort compare ps in
     String.concat ";" (List.map (fun (k, v) -> k ^ "=" ^ v) ps)
 
+(* extra = urls~data~platform ; "_" = absent; urls hex joined by "."; platform arch.os.osver.features.variant,
+   features "_" or hex joined by "+" *)
+let extra_of (s : string) : dextra =
+  match split '~' s with
+  | [u; d; p] ->
+    { x_urls = (if u = "_" then [] else List.map str_of_hex (split '.' u));
+      x_data = (if d = "_" then [] else str_of_hex d);
+      x_platform = (if p = "_" then None else
+        match split '.' p with
+        | [a; o; v; f; r] ->
+          Some { p_arch = str_of_hex a; p_os = str_of_hex o; p_osver = str_of_hex v;
+                 p_osfeat = (if f = "_" then [] else List.map str_of_hex (split '+' f)); p_variant = str_of_hex r }
+        | _ -> failwith "platform") }
+  | _ -> failwith ("extra " ^ s)
+
+let show_extra (x : dextra) =
+  let u = match x.x_urls with [] -> "_" | l -> String.concat "." (List.map hex_of_str l) in
+  let d = match x.x_data with [] -> "_" | l -> hex_of_str l in
+  let p = match x.x_platform with
+    | None -> "_"
+    | Some p -> String.concat "." [hex_of_str p.p_arch; hex_of_str p.p_os; hex_of_str p.p_osver;
+                                   (match p.p_osfeat with [] -> "_" | l -> String.concat "+" (List.map hex_of_str l));
+                                   hex_of_str p.p_variant] in
+  u ^ "~" ^ d ^ "~" ^ p
+
 let desc_of (s : string) : desc =
   match split ':' s with
   | ["D"; mt; dg; sz; ann; at; ex] ->
     { d_mt = str_of_hex mt; d_dg = str_of_hex dg; d_sz = z_of_int (int_of_string sz);
-      d_ann = ann_of ann; d_at = str_of_hex at; d_extra = str_of_hex ex }
+      d_ann = ann_of ann; d_at = str_of_hex at; d_extra = extra_of ex }
   | _ -> failwith ("desc " ^ s)
 
 let show_desc (d : desc) =
   Printf.sprintf "D:%s:%s:%d:%s:%s:%s" (hex_of_str d.d_mt) (hex_of_str d.d_dg) (int_of_z d.d_sz)
-    (show_ann d.d_ann) (hex_of_str d.d_at) (hex_of_str d.d_extra)
+    (show_ann d.d_ann) (hex_of_str d.d_at) (show_extra d.d_extra)
 
 let odesc_of s = if s = "N" then None else Some (desc_of s)
 let show_odesc o = match o with None -> "N" | Some d -> show_desc d
@@ -86,9 +112,9 @@ let fn_of s =
   | "v10" -> FV10 | "v11" -> FV11 | "vbad" -> FBadVersion | "rc2" -> FRC2 | "art" -> FArtifact
   | _ -> failwith "fn"
 
-(* json.Marshal and the digest are parameters of the model; the runner's
-   observables do not depend on them except for the digest of "{}" *)
-let dummy_marshal (_ : manifest) : n list = []
+(* json.Marshal is the executable model json_manifest (Model/PackEnc.v): the bytes are an observable.
+   The digest stays a parameter; the runner's observables do not depend on it except for "{}" *)
+let dummy_marshal (m : manifest) : n list = json_manifest m
 let dummy_h (s : n list) : n list = if s = empty_json then empty_json_digest else [n_of_int 63]
 let now_placeholder = List.map (fun c -> n_of_int (Char.code c)) ['<'; 'N'; 'O'; 'W'; '>']
 
@@ -96,6 +122,8 @@ let () =
   iter_lines (fun l ->
     match split_ws l with
     | [id; "M"; h] -> Printf.printf "%s %s\n" id (if valid_media_type (str_of_hex h) then "1" else "0")
+    | [id; "J"; h] -> Printf.printf "%s %s\n" id (hex_of_str (json_string (str_of_hex h)))
+    | [id; "B"; h] -> Printf.printf "%s %s\n" id (hex_of_str (base64 (str_of_hex h)))
     | [id; "L"; h] -> Printf.printf "%s %s\n" id (if rfc3339_ok_prefix (str_of_hex h) then "1" else "0")
     | [id; "U"; h] -> Printf.printf "%s %s\n" id (hex_of_str (utf8_san (str_of_hex h)))
     | [id; "T"; h] -> Printf.printf "%s %s\n" id (if rfc3339_ok (str_of_hex h) then "1" else "0")
@@ -112,11 +140,12 @@ let () =
        | Ok (d, m) ->
          (* the document is shown as it can be read back from the stored bytes (json.Marshal
             coerces strings to valid UTF-8); descriptor and events are what Pack handed out *)
+         let bytes = json_manifest m in
          let m = san_manifest m in
-         Printf.printf "%s OK %s:%s:%s kind=%s cfg=%s layers=%s subj=%s at=%s ann=%s EV %s\n" id
+         Printf.printf "%s OK %s:%s:%s kind=%s cfg=%s layers=%s subj=%s at=%s ann=%s EV %s BYTES %s\n" id
            (hex_of_str d.d_mt) (hex_of_str d.d_at) (show_ann d.d_ann)
            (match m.m_kind with KImage -> "I" | KArtifact -> "A")
            (show_odesc m.m_config) (show_list m.m_layers) (show_odesc m.m_subject)
-           (hex_of_str m.m_at) (show_ann m.m_ann) (show_events s'.s_events))
+           (hex_of_str m.m_at) (show_ann m.m_ann) (show_events s'.s_events) (hex_of_str bytes))
     | [] -> ()
     | _ -> Printf.printf "BADLINE %s\n" l)
